@@ -1,7 +1,8 @@
 ------------------------------- MODULE Depth -------------------------------
 (***************************************************************************)
 (* Nesting (C05).  A document pattern is                                   *)
-(*    [hs, ks, layers]   hs = segments of the table header (0 = none),     *)
+(*    [hs, hk, ks, layers]  hs = segments of the header (0 = none), hk =   *)
+(*                       "std" for [..] / "aot" for [[..]],                *)
 (*                       ks = segments of the top-level key,               *)
 (*                       layers = <<layer...>> from the outside in, with   *)
 (*        [c |-> "A", n]        n nested arrays                            *)
@@ -32,7 +33,7 @@ Accepts(p, L) ==
   ELSE KeysOk(p, L) /\ (Size(p.ks, L) - 1) + AddCount(p.layers, L) < L
 
 VARIABLES pat, lvl
-Init == lvl = 0 /\ pat = [hs |-> "0", ks |-> "1", layers |-> <<>>]
+Init == lvl = 0 /\ pat = [hs |-> "0", hk |-> "std", ks |-> "1", layers |-> <<>>]
 Next == lvl = 0 /\ lvl' = 1 /\ pat' \in Patterns
 Spec == Init /\ [][Next]_<<pat, lvl>>
 
@@ -41,5 +42,5 @@ Bounded == Accepts(pat, LIMIT) => StructDepth(pat, LIMIT) <= Bound(LIMIT)
 \* the contract is satisfiable: what must be accepted is accepted by both disciplines
 Liveness == MustAccept(pat) => Accepts(pat, LIMIT)
 \* direction G: one case per pattern, with what the specification requires of it
-Emit == lvl = 1 => PrintT(ToJson([hs |-> pat.hs, ks |-> pat.ks, layers |-> pat.layers, must_accept |-> MustAccept(pat)]))
+Emit == lvl = 1 => PrintT(ToJson([hs |-> pat.hs, hk |-> pat.hk, ks |-> pat.ks, layers |-> pat.layers, must_accept |-> MustAccept(pat)]))
 =============================================================================
